@@ -151,13 +151,24 @@ fn finish<E: IGlue>(m: &IterModel, st: &mut St<E::It>) -> Result<(), (String, St
         let want_fwd: Vec<usize> = md.clone().map(|p| m.enabled[p]).collect();
         let mut want_rev = want_fwd.clone();
         want_rev.reverse();
-        let obs = catch(|| {
+        // (bounded walks first: the unbounded consumers only run on an iterator that was seen to end)
+        let walks = catch(|| {
             let fwd: Vec<usize> = it.clone().take(64).map(|v| v.idx()).collect();
             let rev: Vec<usize> = it.clone().rev().take(64).map(|v| v.idx()).collect();
-            let cnt = it.clone().count();
-            let last = it.clone().last().map(|v| v.idx());
-            let folded = it.clone().fold(0usize, |a, _| a + 1);
-            (fwd, rev, cnt, last, folded)
+            (fwd, rev)
+        });
+        match &walks {
+            Ok((fwd, _)) if *fwd != want_fwd => return Err(("remaining-items".into(), format!("{:?}", want_fwd), format!("{:?}", fwd))),
+            Ok((_, rev)) if *rev != want_rev => return Err(("remaining-items-reversed".into(), format!("{:?}", want_rev), format!("{:?}", rev))),
+            _ => {}
+        }
+        let obs = walks.and_then(|(fwd, rev)| {
+            catch(|| {
+                let cnt = it.clone().count();
+                let last = it.clone().last().map(|v| v.idx());
+                let folded = it.clone().fold(0usize, |a, _| a + 1);
+                (fwd, rev, cnt, last, folded)
+            })
         });
         match obs {
             Err(p) => return Err(("panic-in-consumer".into(), format!("{:?}", want_fwd), p)),
@@ -540,8 +551,12 @@ pub fn c04<E: IGlue>(ctx: &mut Ctx) {
         }
         Err(p) => ctx.fail("iter-reverse-panic", json!({"mask": mask}), "reverse list".into(), p),
     }
+    if ctx.failed() {
+        return;
+    }
     ctx.eval();
-    let cnt = E::iter().count();
+    // (bounded: an iterator that never ends must not hang the check)
+    let cnt = E::iter().take(2 * n + 8).count();
     let len = E::iter().len();
     let c = E::count();
     if cnt != n || len != n || c != Some(n) {
@@ -576,7 +591,7 @@ pub fn c08<E: IGlue>(ctx: &mut Ctx) {
     let mask: String = spec.variants.iter().map(|v| if v.disabled() { 'd' } else { 'E' }).collect();
     let input = json!({"mask": mask, "n": n_decl});
     ctx.eval();
-    let cnt = E::iter().count();
+    let cnt = E::iter().take(2 * n_en + 8).count();
     if E::count() != Some(n_en) || cnt != n_en {
         ctx.fail("count-vs-enabled", input.clone(), format!("COUNT = iter().count() = {}", n_en), format!("COUNT {:?} iter().count() {}", E::count(), cnt));
     }
